@@ -165,6 +165,30 @@ def gen_cases(ck):
         if manifold(t):
             used = sorted({x for r in t for x in r if x != FILL})
             cases.append({"kind": "random_table", "table": t, "n_node": max(used) + 1})
+    # one large structured mesh with mixed face sizes and a high-valence fan (array-wide shortcuts need large inputs)
+    import math
+    for bi in range(1 if ck.tier == "quick" else 3):
+        nlon, nlat = 48 + 5 * bi, 30 + bi
+        nodes_b, faces_b = [], []
+        for j in range(nlat + 1):
+            for i in range(nlon):
+                la = math.radians(-75 + 150.0 * j / nlat); lo = math.radians(-180 + 360.0 * (i + 0.5) / nlon)
+                nodes_b.append((math.cos(la) * math.cos(lo), math.cos(la) * math.sin(lo), math.sin(la)))
+        for j in range(nlat):
+            for i in range(nlon):
+                q = [j * nlon + i, j * nlon + (i + 1) % nlon, (j + 1) * nlon + (i + 1) % nlon, (j + 1) * nlon + i]
+                if (i + 2 * j) % 7:
+                    faces_b.append(q)
+                else:
+                    faces_b.append(q[:3]); faces_b.append([q[0], q[2], q[3]])
+        # a polar fan: one node of valence nlon on top of the band
+        nodes_b.append((0.0, 0.0, 1.0))
+        top = len(nodes_b) - 1
+        for i in range(nlon):
+            faces_b.append([nlat * nlon + i, nlat * nlon + (i + 1) % nlon, top])
+        mb = meshgen.Mesh(nodes_b, faces_b, closed=False, name="bandfan%dx%d" % (nlon, nlat))
+        lonb, latb = mb.lonlat()
+        cases.append({"kind": "mesh", "table": mb.table(4), "n_node": len(mb.nodes), "lonlat": [lonb, latb], "name": mb.name, "closed": False})
     n_mesh = 200 if ck.tier == "quick" else 4000
     for i in range(n_mesh):
         big = ck.tier == "thorough" and i % 40 == 0
